@@ -140,10 +140,11 @@ def Lsm.validate (s : Lsm) : Bool :=
 /-- `StreamWriter.Flush`: every writer's tables go to level `prevLevel - 1`; all levels are
     sorted by `Smallest`; in normal mode a new oracle starts at
     `max(readTs, maxVersion) + 1`; then `validate`. `none`: the cut sizes do not add up. -/
-def Db.swFlush (d : Db) (st : SwState) (outSizes : List Nat) : Option (Db × Bool) :=
+def Db.swFlush (d : Db) (st : SwState) (outSizes : List Nat) (outIds : List Nat := []) : Option (Db × Bool) :=
   match cutTables outSizes st.newEnts with
   | none => none
-  | some tables =>
+  | some tables0 =>
+    let tables := withIds tables0 outIds   -- file ids: identification only
     let lvl := st.prevLevel - 1
     let levels := if tables.isEmpty then d.lsm.levels
                   else d.lsm.levels.set lvl (d.lsm.levels.getD lvl [] ++ tables)
